@@ -590,6 +590,23 @@ func genC10(g *Gen) {
 		}
 	}
 	rec(nil)
+	// (3b) names that are spelled like the keywords in another letter case are names ('if' and 'unless' are the keywords; seeded
+	//      C10-r8-1): as closers they close only the section of that name, after '#' or '^' they open a section of that name
+	for _, kw := range []string{"IF", "If", "iF", "UNLESS", "Unless", "unlesS", "if", "unless"} {
+		for _, op := range []string{"#", "^"} {
+			for _, br := range [][2]string{{"{{", "}}"}, {"{{{", "}}}"}} {
+				for _, shape := range [][]mlex{
+					append(append(tag(br[0], op, "a", br[1]), mlex{"text", "x"}), tag(br[0], "/", kw, br[1])...),
+					append(append(tag(br[0], op, kw, br[1]), mlex{"text", "x"}), tag(br[0], "/", kw, br[1])...),
+					append(append(tag(br[0], op, kw, br[1]), mlex{"text", "x"}), tag(br[0], "/", "a", br[1])...),
+					append(append(tag(br[0], op, "if", " ", "a", br[1]), mlex{"text", "x"}), tag(br[0], "/", kw, br[1])...),
+					append(append(append(tag(br[0], op, "a", br[1]), tag(br[0], op, "b", br[1])...), tag(br[0], "/", kw, br[1])...), tag(br[0], "/", "a", br[1])...),
+				} {
+					g.Run("names spelled like keywords in another letter case (accept/reject)", []Ev{{"op": "tmpl", "lex": lexAny(mnormalize(shape)), "vars": []any{[]any{cps("a"), cps("v")}, []any{cps(strings.ToLower(kw)), cps("w")}}, "wellformed": false, "caseseed": 1}})
+				}
+			}
+		}
+	}
 	// (4) lexeme-level mutations of well-formed templates (delete / duplicate / replace / swap a lexeme)
 	m := g.Pick(3000, 60000)
 	for i := 0; i < m; i++ {
